@@ -28,6 +28,9 @@ def run(db, chk) -> None:
     _results(db, chk, m)
     _descendants(db, chk)
     _tree_dependency(db, chk)
+    from .c13 import check_publish_order
+    check_publish_order(db, chk, "C16.R5-stack-columns-final")      # the columns the analysis selects operators by are the linked tree's
+    chk.floor("C16.R5-stack-columns-final", 2)
 
 
 def _tree_dependency(db, chk):
